@@ -74,7 +74,27 @@ Definition v_func (x1 x2 : float) (zs ws xi ys : list float) (out : result float
             end
           end.
 
+(* ... called through QGauss.integrate / qgauss with an integrand of python kind [k]: the model's
+   dispatch must send it to the function integrator (the harness observed that the integrand WAS
+   called on [xi]) *)
+Definition v_func_k (k : ykind) (x1 x2 : float) (zs ws xi ys : list float) (out : result float) : Z :=
+  let v := v_func x1 x2 zs ws xi ys out in
+  if route_eqb (dispatch false k) RFunc then v else if v mod 2 =? 0 then v + 1 else v.
+
 (* ---- QGauss(n).integrate(xv, yv) on tabulated data *)
+Definition v_data_k (k : ykind) (zs ws xv yv : list float) (out : result float) : Z :=
+  let v := verdict (ofloat_eqb (F.integrate_data zs ws xv yv) out)
+          match out with
+          | Err _ => false
+          | Ok res =>
+            match fl2d zs, fl2d ws, fl2d xv, fl2d yv, f2d res with
+            | Some dzs, Some dws, Some dxv, Some dyv, Some dres =>
+              data_check (map d2Q dzs) (map d2Q dws) (map d2Q dxv) (map d2Q dyv) (d2Q dres)
+            | _, _, _, _, _ => false
+            end
+          end in
+  if route_eqb (dispatch false k) RData then v else if v mod 2 =? 0 then v + 1 else v.
+
 Definition v_data (zs ws xv yv : list float) (out : result float) : Z :=
   verdict (ofloat_eqb (F.integrate_data zs ws xv yv) out)
           match out with
